@@ -1,15 +1,21 @@
 import Lean.Data.Json
 import Std.Data.HashMap
-import PynguinModel.Model.Mutants
+import PynguinModel.Model.MutantsCtl
 /-! Line-protocol driver for C28: one JSON case per line in, one JSON result per line out.
 
 case  = {"tree": T, "ops": [{"prone": b, "vis": [[path, [[name, T], …]], …]}, …],
          "mode": "hist" | "sel" | "hom", "cap": n | -1, "draws": [[i, …], …],
-         "groups": [[[op, idx], …], …], "stop": k | -1}
+         "groups": [[[op, idx], …], …], "stop": k | -1,
+         "calls": [c, …], "ctlGroups": [[[op, idx], …], …]}
+calls = a history of calls on ONE MutationController wrapping the configured mutator: -2 = mutant_count(),
+        -1 = create_mutants() consumed to the end, k ≥ 1 = create_mutants() abandoned after k mutants;
+        ctlGroups = the groups the HOM strategy forms in a complete run (may be longer than "groups" when the
+        recorded enumeration was abandoned)
 T     = [label, [T, …]]  (a node; the kids are its child slots in field order, list entries by position)
       | [v]              (a non-node entry of a child list: `None` placeholder / identifier, v = interned repr)
 out   = {"count": n, "yields": [[[[op, path, name], …], hash], …], "intact": b, "final": hash,
-         "counts": […], "err": null | "…"}
+         "counts": […], "err": null | "…", "ctl": [n, …] | "error"}
+`histStop / selStop / homStop` and the controller (`ctlRunF`) live in `Model/MutantsCtl.lean`.
 `stop = k ≥ 0`: the consumer takes k mutants and then drops the generator (which closes it). -/
 open Lean PynguinModel.Mutants
 
@@ -55,6 +61,8 @@ structure Case where
   draws : List (List Nat)
   groups : List (List (Nat × Nat))
   stop : Int
+  calls : List Int
+  ctlGroups : List (List (Nat × Nat))
   deriving FromJson
 
 def mkOp (o : OpJ) : Op :=
@@ -70,74 +78,23 @@ def errJ : Err → Json
   | .badDraw => "badDraw"
   | .badRef => "badRef"
 
-def result (count : Nat) (ys : List (List Mut × Tree)) (t : Tree) (hf : Heap) (counts : List Nat)
+def callOf (c : Int) : Call :=
+  if c == -2 then .count else if c < 0 then .create none else .create (some c.toNat)
+
+def ctlJ (m : Option Mutator) (t : Tree) (calls : List Int) : Json :=
+  match m with
+  | none => "badRef"
+  | some m =>
+    match ctlRunF m t (calls.map callOf) Heap.clean with
+    | .ok ns => toJson ns
+    | .error e => errJ e
+
+def result (ctl : Json) (count : Nat) (ys : List (List Mut × Tree)) (t : Tree) (hf : Heap) (counts : List Nat)
     (err : Json) : Json :=
-  Json.mkObj [("count", toJson count),
+  Json.mkObj [("ctl", ctl), ("count", toJson count),
     ("yields", Json.arr (ys.toArray.map fun (ms, m) => Json.arr #[Json.arr (ms.toArray.map mutJ), toJson m.hash])),
     ("intact", toJson ((read t hf).hash == t.hash)), ("final", toJson (read t hf).hash),
     ("counts", toJson counts), ("err", err)]
-
-/-- historical path with an early stop: the consumer takes `k` mutants and drops the generator, which
-closes it (`closeEvs`); the heap at the yield of `i` is `h.set i.path (some i.repl)` (`mutant_heap_at_yield`) -/
-def histStop (t : Tree) : List Op → Nat → Heap → Nat → List (Mut × Tree) × Heap
-  | [], _, h, _ => ([], h)
-  | op :: ops, o, h, k =>
-    let ys := yields (mutateEvs op none h t)
-    if ys.length < k then
-      let rest := histStop t ops (o + 1) h (k - ys.length)
-      ((enumOpF op t h).map (fun (i, m) => ((o, i), m)) ++ rest.1, rest.2)
-    else
-      let taken := ys.take k
-      match taken.getLast? with
-      | none => ([], h)
-      | some i =>
-        (taken.map (fun i => ((o, i), readRoot t (h.set i.path (some i.repl)))),
-         applyWrites (closeEvs h i) (h.set i.path (some i.repl)))
-
-/-- selected path with an early stop -/
-def selStop (ops : List Op) (t : Tree) : List Mut → Heap → Nat → Except Err (List (Mut × Tree) × Heap)
-  | [], h, _ => .ok ([], h)
-  | _, h, 0 => .ok ([], h)
-  | m :: ms, h, k + 1 =>
-    if k = 0 then
-      match ops[m.1]? with
-      | none => .error .badRef
-      | some op =>
-        match next (mutateEvs op (some (m.2.path, m.2.name)) h t) h with
-        | (none, _, _) => .error .notRegenerated
-        | (some i, h1, _) => .ok ([((m.1, i), readRoot t h1)], applyWrites (closeEvs h i) h1)
-    else do
-      let (y, _) ← applyOne ops t m h
-      let (ys, hf) ← selStop ops t ms h k
-      pure (y :: ys, hf)
-
-/-- starting the generators of one group, remembering for each the heap it captured -/
-def startAllH (ops : List Op) (t : Tree) : List Mut → Heap → Except Err (Heap × List Mut × List (Heap × Info))
-  | [], h => .ok (h, [], [])
-  | m :: ms, h =>
-    match ops[m.1]? with
-    | none => .error .badRef
-    | some op =>
-      match next (mutateEvs op (some (m.2.path, m.2.name)) h t) h with
-      | (none, _, _) => .error .notRegenerated
-      | (some i, h1, _) => do
-        let (hk, ms', caps) ← startAllH ops t ms h1
-        pure (hk, (m.1, i) :: ms', (h, i) :: caps)
-
-def homStop (ops : List Op) (t : Tree) : List (List Mut) → Heap → Nat → Except Err (List (List Mut × Tree) × Heap)
-  | [], h, _ => .ok ([], h)
-  | _, h, 0 => .ok ([], h)
-  | g :: gs, h, k + 1 =>
-    if k = 0 then do
-      let (hk, ms, caps) ← startAllH ops t g h
-      -- the suspended generators are closed newest first
-      let hf := caps.reverse.foldl (fun acc (h0, i) => applyWrites (closeEvs h0 i) acc) hk
-      pure ([(ms, readRoot t hk)], hf)
-    else do
-      let (hk, ms, gens) ← startAll ops t g h
-      let _ ← finishAll gens.reverse hk
-      let (ys, hf) ← homStop ops t gs h k
-      pure ((ms, readRoot t hk) :: ys, hf)
 
 def runCase (c : Case) : Json :=
   let ops := c.ops.map mkOp
@@ -153,6 +110,16 @@ def runCase (c : Case) : Json :=
     | some k => stratifiedCounts sizes k
     | none => sizes
   let single (ys : List (Mut × Tree)) := ys.map fun (m, tr) => ([m], tr)
+  let resolve (g : List (Nat × Nat)) : Option (List Mut) :=
+    g.mapM fun (o, i) => do
+      let l ← per.1[o]?
+      let info ← l[i]?
+      pure ((o, info) : Mut)
+  let mutator : Option Mutator := match c.mode with
+    | "hist" => some (.hist ops)
+    | "sel" => some (.sel ops prone cap c.draws)
+    | _ => (c.ctlGroups.mapM resolve).map (Mutator.hom ops)
+  let result := result (if c.calls.isEmpty then toJson ([] : List Nat) else ctlJ mutator t c.calls)
   match c.mode with
   | "hist" =>
     let r := if c.stop < 0 then (historicalF t ops 0 h1, h1) else histStop t ops 0 h1 c.stop.toNat
@@ -166,11 +133,6 @@ def runCase (c : Case) : Json :=
       | .error e => result cnt.1 [] t h1 counts (errJ e)
       | .ok (ys, hf) => result cnt.1 (single ys) t hf counts Json.null
   | "hom" =>
-    let resolve (g : List (Nat × Nat)) : Option (List Mut) :=
-      g.mapM fun (o, i) => do
-        let l ← per.1[o]?
-        let info ← l[i]?
-        pure ((o, info) : Mut)
     match c.groups.mapM resolve with
     | none => result cnt.1 [] t h1 counts (errJ .badRef)
     | some groups =>
